@@ -1024,6 +1024,7 @@ func propC06Child(t *rapid.T) {
 func TestC06Child(t *testing.T) { rapid.Check(t, propC06Child) }
 
 func TestRegressC06(t *testing.T) {
+	c06TerminalActionsOverDemotingCore(t)
 	// F7: zapgrpc Fatalln on a logger whose core disables Fatal must still exit
 	c06RunInProcess(t, c06Config{Core: "json", Threshold: 7, Hook: "default", Level: "fatal", Front: "zapgrpc.Fatalln"})
 	c06RunInProcess(t, c06Config{Core: "nop", Threshold: 0, Hook: "noop", Level: "fatal", Front: "Sugar.Fatalw"})
